@@ -145,6 +145,26 @@ pub fn generate(g: &mut Gen, thorough: bool) {
         let fwd = vec![[0.3, pole, 7.0, 2001.0], [0.2, pole * 0.6, 0.0, 0.0], [-2.0, pole, 0.0, 0.0]];
         case(g, "default", def, "F", "01", "23", &fwd, "iii", "lcc-apex-fwd", true);
     }
+    // the steps that work on the stack count tuples, not stack levels: sets of one, three and seven tuples through
+    // programs that leave one to four levels on the stack
+    for n in [1usize, 3, 7] {
+        let pts: Vec<[f64; 4]> = (0..n).map(|i| [1.0 + i as f64, 20.0 + i as f64, 300.0, 2000.0 + i as f64]).collect();
+        let classes = "i".repeat(n);
+        for def in [
+            "push v_2 | addone | pop v_2", "push v_2 v_3 | addone | pop v_3 v_2", "push v_2 | push v_3 | push v_4 | addone", "push v_1 v_2 | push v_3 v_4 | addone",
+            "stack push=2 | addone | stack pop=2", "stack push=2,3,4 | addone", "stack push=2,3 | stack swap | addone | stack pop=3,2", "stack push=2,3,4 | stack roll=3,1 | addone | stack pop=2,3,4",
+            "push v_2 | addone | pop v_2 | push v_3 | pop v_3",
+        ] {
+            // (backwards only the programs that take off what they put on: the others find the stack empty)
+            let balanced = !def.ends_with("| addone");
+            for dir in ["F", "I"] {
+                if dir == "I" && !balanced {
+                    continue;
+                }
+                case(g, "default", def, dir, "0", "", &pts, &classes, "stack-steps-count-tuples", true);
+            }
+        }
+    }
     // lcc: the opposite pole cannot be projected
     for (def, lat) in [("lcc lat_1=57 lat_2=60", -90.0f64), ("lcc lat_1=-33", 90.0), ("lcc lat_1=40 lat_0=30 lon_0=10 x_0=5", -90.0)] {
         let pts = vec![[0.2, lat.to_radians(), 5.0, 2001.0], [0.2, -lat.to_radians() * 0.5, 5.0, 2001.0]];
